@@ -132,7 +132,7 @@ def _c06(prop, tier, seed, t0):
     wd = vlib.fresh_dir(os.path.join(vlib.WORK, prop))
     n = 60 if tier == "quick" else 1200
     allc = os.path.join(wd, "rep.all")
-    total = vlib.gen_cases(exe, allc, "repeat:base,midconflict,soft,hints,cyclic", n, seed, "", whitebox=False,
+    total = vlib.gen_cases(exe, allc, "repeat:base,midconflict,soft,hints,cyclic,unionoverlap", n, seed, "", whitebox=False,
                            extra=["--reps", "4"])
     shards = vlib.split_file(allc, 8 if tier == "quick" else 32, wd, "rep")
     merged = []
